@@ -5,6 +5,15 @@ PYTHONHASHSEED, and with the returned models fed back in every order.
 It returns sha256 digests (and, in-process, the raw arrays) of the four things the statement names: fold
 assignments, model coefficients, scores, result files.  `python -m harness.c08 --worker '<cfg json>'` runs it in a
 fresh interpreter and prints the digests.
+
+Two classes of INPUT are run through fresh interpreters as well (check `fresh_interpreters_inputs`), both at the level
+of the reader alone (`--worker '{"kind": "readers", ...}'`: mokapot.read_fasta / mokapot.read_pin only, many inputs
+per interpreter) and through the whole analysis:
+  * a protein database given as SEVERAL FASTA files with indistinguishable proteins (identical peptide sets under
+    different accessions, equal-sized subset proteins, one accession listed again with another sequence) spread over
+    the files, as with a database plus contaminant / spike-in files;
+  * PSM tables in which one or two FEATURE columns really contain missing values (read_pin drops such features), for
+    several sizes of the column slices in which read_pin looks for them.
 """
 import copy
 import hashlib
@@ -15,6 +24,7 @@ import os
 import random
 import subprocess
 import sys
+import traceback
 import warnings
 from concurrent.futures import ThreadPoolExecutor
 from pathlib import Path
@@ -62,9 +72,66 @@ def _fasta_and_peptides(data_seed, n_prot=12, decoys=True):
     return "\n".join(lines) + "\n", triples
 
 
+def _multi_fasta(data_seed, names, decoys=True):
+    """The database of _fasta_and_peptides spread over len(names) >= 2 FASTA files the way a search database plus
+    contaminant / spike-in files are: the first file is the complete base database; every further file j holds
+      * another accession with exactly the sequence of base protein 6 (with the base's own duplicate of that protein
+        this makes one group of indistinguishable proteins with a member in EVERY file),
+      * another accession with exactly the sequence of one more base protein (a two-file group),
+      * a protein made of the first two peptides of base protein 8 (the same peptide set in every further file: subset
+        proteins with equally many peptides, in different files),
+    and the last file lists the accession of base protein 10 once more with a shorter sequence (one accession, two
+    sequences, in different files).  Returns ([(file name, text)], {accession: index of its file})."""
+    base, triples = _fasta_and_peptides(data_seed, decoys=decoys)
+    peps = {}
+    for q, name, _ in triples:
+        peps.setdefault(name, []).append(q)
+    tn = list(peps)
+
+    def rev(q):
+        return q[-2::-1] + q[-1]
+    files, where = [(names[0], base)], {n: 0 for n in tn}
+    for j in range(1, len(names)):
+        entries = [("cRAP%d|X%03d|ALIAS_OF_6" % (j, j), peps[tn[6]]),
+                   ("cRAP%d|Y%03d|ALIAS" % (j, j), peps[tn[(2, 4, 0)[(j - 1) % 3]]]),
+                   ("cRAP%d|S%03d|PART_OF_8" % (j, j), peps[tn[8]][:2])]
+        for n, _ in entries:
+            where[n] = j
+        if j == len(names) - 1:
+            entries.append((tn[10], peps[tn[10]][:3]))
+        lines = []
+        for n, ps in entries:
+            lines.append(">%s another description\n%s" % (n, "".join(ps)))
+            if decoys:
+                lines.append(">decoy_%s another description\n%s" % (n, "".join(rev(q) for q in ps)))
+        files.append((names[j], "\n".join(lines) + "\n"))
+    return files, where
+
+
+FEATURE_NAME_SETS = {"sequest": ["xcorr", "deltacn", "lnrsp", "peplen", "dm", "enzint", "ions", "sp"]}
+
+
+def feature_names(cfg):
+    """names of the feature columns of table(cfg), in file order"""
+    n = cfg.get("n_feat", 3)
+    if cfg.get("feat_names"):
+        return FEATURE_NAME_SETS[cfg["feat_names"]][:n]
+    return ["f%d" % j for j in range(n)]
+
+
+def complete_features(cfg):
+    """ORACLE (from the documented contract of read_pin, not from its code): the features read_pin may use are the
+    feature columns of the file without missing values, in file order"""
+    names = feature_names(cfg)
+    gappy = {names[j] for j in cfg.get("nan_cols") or []}
+    return [f for f in names if f not in gappy]
+
+
 def table(cfg):
-    """the PSM table of a configuration (a pure function of cfg)"""
-    df = small_df(n_spec=cfg["n_spec"], dup=2, seed=cfg["data_seed"], n_feat=3, n_pep=max(10, cfg["n_spec"] // 3))
+    """the PSM table of a configuration (a pure function of cfg).  cfg["nan_cols"]: indices of the feature columns in
+    which about 4 % of the values (at least one) are missing; only noise features (index >= 2) are meant."""
+    df = small_df(n_spec=cfg["n_spec"], dup=2, seed=cfg["data_seed"], n_feat=cfg.get("n_feat", 3),
+                  n_pep=max(10, cfg["n_spec"] // 3))
     good = ((df["Label"] == 1) & (df["ScanNr"] % 3 != 0)).values        # a second informative feature, so that the
     df["f1"] = df["f1"] + 1.5 * good                                    # learned model beats the best single feature
     if cfg.get("proteins"):
@@ -80,6 +147,14 @@ def table(cfg):
             peps.append(t if lab == 1 else dcy)
             prots.append(name if lab == 1 else "decoy_" + name)
         df["Peptide"], df["Proteins"] = peps, prots
+    for j in cfg.get("nan_cols") or []:
+        rnd = random.Random("c08-nan-%d-%d" % (cfg["data_seed"], j))
+        rows = rnd.sample(range(len(df)), max(1, len(df) // 25))
+        if cfg.get("nan_tail"):                 # missing values only in the last row chunk(s) of the file
+            rows = [len(df) - 1 - r % max(1, len(df) // 4) for r in rows]
+        df.loc[rows, "f%d" % j] = float("nan")
+    if cfg.get("feat_names"):
+        df = df.rename(columns=dict(zip(["f%d" % j for j in range(cfg.get("n_feat", 3))], feature_names(cfg))))
     return df
 
 
@@ -104,6 +179,43 @@ def model_bytes(m):
     return parts
 
 
+def read_table(cfg, d):
+    """write table(cfg) into d and read it with mokapot.read_pin; cfg["col_chunk"] / cfg["row_chunk"] set the size of
+    the column slices / row chunks in which read_pin looks for missing values.  Returns (table, dataset)."""
+    import mokapot
+    import mokapot.parsers.pin as pin
+    df = table(cfg)
+    path = d / ("in.parquet" if cfg["fmt"] == "parquet" else "in.pin")
+    if cfg["fmt"] == "parquet":
+        df.to_parquet(path, index=False)
+    else:
+        df.to_csv(path, sep="\t", index=False)
+    saved = pin.CHUNK_SIZE_COLUMNS_FOR_DROP_COLUMNS, pin.CHUNK_SIZE_ROWS_FOR_DROP_COLUMNS
+    try:
+        if cfg.get("col_chunk"):
+            pin.CHUNK_SIZE_COLUMNS_FOR_DROP_COLUMNS = cfg["col_chunk"]
+        if cfg.get("row_chunk"):
+            pin.CHUNK_SIZE_ROWS_FOR_DROP_COLUMNS = cfg["row_chunk"]
+        ds = mokapot.read_pin(path, max_workers=cfg.get("workers", 1))[0]
+    finally:
+        pin.CHUNK_SIZE_COLUMNS_FOR_DROP_COLUMNS, pin.CHUNK_SIZE_ROWS_FOR_DROP_COLUMNS = saved
+    return df, ds
+
+
+def write_fastas(files, d):
+    """write [(name, text)] into d; the paths to hand to read_fasta: the bare names when d is the working directory
+    (fresh-interpreter workers: the run is then a function of cfg and PYTHONHASHSEED only, not of the random name of
+    the scratch directory), full paths otherwise"""
+    d = Path(d)
+    for n, text in files:
+        (d / n).write_text(text)
+    here = Path.cwd().resolve() == d.resolve()
+    return [n if here else str(d / n) for n, _ in files]
+
+
+LAST = {}       # what the current analysis has got so far (a worker reports it when a later step fails)
+
+
 def analysis(cfg, d, keep_raw=False, models_in=None):
     """Run the pipeline of cfg in directory d.  models_in: trained models to feed back instead of training."""
     import numpy as np
@@ -111,23 +223,23 @@ def analysis(cfg, d, keep_raw=False, models_in=None):
     from mokapot import PercolatorModel, assign_confidence, brew
     d = Path(d)
     d.mkdir(parents=True, exist_ok=True)
+    LAST.clear()
     if cfg.get("global_seed") is not None:          # the state of the global RNG is NOT part of "a fixed seed"
         np.random.seed(cfg["global_seed"])
     seed, k, w = cfg["seed"], cfg["folds"], cfg["workers"]
-    df = table(cfg)
-    path = d / ("in.parquet" if cfg["fmt"] == "parquet" else "in.pin")
-    if cfg["fmt"] == "parquet":
-        df.to_parquet(path, index=False)
-    else:
-        df.to_csv(path, sep="\t", index=False)
-    ds = mokapot.read_pin(path, max_workers=w)[0]
+    df, ds = read_table(cfg, d)
+    LAST["features"] = [str(f) for f in ds.feature_columns]
     probe = copy.copy(ds)                             # _split deletes the spectra_dataframe attribute of its dataset
     folds = [np.asarray(f, dtype=np.int64) for f in probe._split(k, np.random.default_rng(seed))]
     proteins = None
     if cfg.get("proteins"):
-        fasta, _ = _fasta_and_peptides(cfg["data_seed"], decoys=cfg["proteins"] == "with_decoys")
-        (d / "db.fasta").write_text(fasta)
-        proteins = mokapot.read_fasta(d / "db.fasta", missed_cleavages=0, min_length=6)
+        if cfg.get("fasta_names"):
+            files, _ = _multi_fasta(cfg["data_seed"], cfg["fasta_names"], decoys=cfg["proteins"] == "with_decoys")
+            proteins = mokapot.read_fasta(write_fastas(files, d), missed_cleavages=0, min_length=6)
+        else:
+            fasta, _ = _fasta_and_peptides(cfg["data_seed"], decoys=cfg["proteins"] == "with_decoys")
+            (d / "db.fasta").write_text(fasta)
+            proteins = mokapot.read_fasta(d / "db.fasta", missed_cleavages=0, min_length=6)
     if models_in is not None:
         model = list(models_in)
     elif cfg.get("model") == "plain":
@@ -144,7 +256,7 @@ def analysis(cfg, d, keep_raw=False, models_in=None):
                       decoys=True, rng=seed, proteins=proteins, peps_algorithm="qvality")
     files = {p.name: p.read_bytes() for p in sorted(out.iterdir()) if p.is_file()}
     sc = np.ascontiguousarray(np.asarray(scores[0], dtype=float))
-    feats = df[[c for c in df.columns if c.startswith("f") and c[1:].isdigit()]].values
+    feats = df[feature_names(cfg)].values
     res = {"folds": _sha(*[f.tobytes() for f in folds]),
            "coef": _sha(*[b for m in models for b in model_bytes(m)]),
            "scores": _sha(sc.tobytes(), str(list(descs))),
@@ -152,7 +264,7 @@ def analysis(cfg, d, keep_raw=False, models_in=None):
            "trained": bool(all(m.is_trained for m in models)),
            "learned": bool(all(m.is_trained for m in models)
                            and not any(np.array_equal(sc, feats[:, j]) for j in range(feats.shape[1]))),
-           "n_files": len(files), "hashseed": os.environ.get("PYTHONHASHSEED")}
+           "n_files": len(files), "hashseed": os.environ.get("PYTHONHASHSEED"), "features": LAST["features"]}
     if keep_raw:
         res["raw"] = {"folds": folds, "models": models, "scores": sc, "descs": list(descs), "files": files}
     return res
@@ -182,13 +294,16 @@ def _case_of(diffs):
 
 
 def base_cfg(seed, data_seed=3, n_spec=150, folds=3, workers=1, fmt="parquet", proteins=None, global_seed=None,
-             model=None):
+             model=None, **inputs):
+    """inputs: fasta_names (several FASTA files), n_feat / nan_cols / col_chunk / row_chunk / feat_names / nan_tail
+    (feature columns with missing values); only the keys that are given are put into the configuration"""
     if proteins:
         fmt = "text"        # protein-level output cannot be produced from Parquet input (proteins.parquet is written as csv)
     cfg = {"seed": seed, "data_seed": data_seed, "n_spec": n_spec, "folds": folds, "workers": workers, "fmt": fmt,
            "proteins": proteins, "global_seed": global_seed}
     if model:
         cfg["model"] = model
+    cfg.update({k: v for k, v in inputs.items() if v is not None})
     return cfg
 
 
@@ -252,9 +367,27 @@ def run_worker(cfg, hashseed):
     return json.loads(lines[-1])
 
 
+def safe_analysis(cfg, d):
+    """analysis(cfg, d) with d as the working directory (relative FASTA names: see write_fastas); a failure is
+    reported together with what the analysis had got so far"""
+    d.mkdir(parents=True, exist_ok=True)
+    os.chdir(d)
+    try:
+        return analysis(cfg, d)
+    except Exception:
+        return {"error": traceback.format_exc()[-600:], "features": LAST.get("features"),
+                "hashseed": os.environ.get("PYTHONHASHSEED")}
+
+
 def worker_main(cfg):
     with scratch("c08w_") as d:
-        print(json.dumps(analysis(cfg, d)))
+        if cfg.get("kind") == "readers":    # reader-level inputs, then whole analyses, all in this one interpreter
+            out = readers(cfg, d)
+            out["analyses"] = [safe_analysis(c, d / ("analysis%d" % i)) for i, c in enumerate(cfg.get("analyses") or [])]
+        else:
+            out = safe_analysis(cfg, d)
+        os.chdir(VERIF)
+        print(json.dumps(out))
 
 
 _POOL = ThreadPoolExecutor(max_workers=8)
@@ -273,7 +406,8 @@ def _sessions(ck, cfgs, hashseeds, what, pending=None):
         ok = [(h, r) for h, r in rs if "error" not in r]
         ck.case((what, sorted((k, str(v)) for k, v in cfg.items())),
                 nontrivial=bool(ok) and all(r["learned"] for _, r in ok) and len(ok) >= 2)
-        mode = ("-" + cfg["proteins"].replace("_", "-") + "-fasta") if cfg.get("proteins") else ""
+        mode = "-multi-fasta" if cfg.get("fasta_names") else "-missing-values" if cfg.get("nan_cols") else \
+            ("-" + cfg["proteins"].replace("_", "-") + "-fasta") if cfg.get("proteins") else ""
         for h, e in errs:
             ck.violation("worker-fails" + mode, "fresh interpreter (PYTHONHASHSEED=%s) failed: %s" % (h, e[-300:]),
                          {"cfg": cfg, "hashseeds": [h]})
@@ -335,6 +469,236 @@ def check_protein_sessions(tier, seed, pending=None):
     return ck
 
 
+# ----------------------------------------------------------------------------------------------- (e) inputs
+FASTA_PARTS = ("peptide_map", "protein_map", "shared_peptides", "has_decoys")
+
+
+def proteins_canon(p):
+    """a Proteins object as order-free structures: the maps as sorted item lists (their iteration order is not part
+    of any result), the '; '-joined groups of a shared peptide as a sorted list; the group NAMES are kept as they are
+    (the order of the members of a group is what ends up in the protein-level result file)"""
+    pm = sorted((str(k), str(v)) for k, v in p.peptide_map.items())
+    prm = sorted((str(k), str(v)) for k, v in p.protein_map.items())
+    sh = sorted((str(k), sorted(str(v).split("; "))) for k, v in p.shared_peptides.items())
+    groups = sorted({g for _, g in pm if ", " in g} | {g for _, gs in sh for g in gs if ", " in g})
+    return {"peptide_map": _sha(json.dumps(pm)), "protein_map": _sha(json.dumps(prm)),
+            "shared_peptides": _sha(json.dumps(sh)), "has_decoys": bool(p.has_decoys), "groups": groups,
+            "n_peptides": len(pm)}
+
+
+def readers(cfg, d):
+    """the reader-level worker: every FASTA layout of cfg["fasta"] through mokapot.read_fasta, every table of
+    cfg["pin"] through mokapot.read_pin, in ONE interpreter (the working directory is the directory of the files)"""
+    import mokapot
+    out = {"hashseed": os.environ.get("PYTHONHASHSEED"), "fasta": [], "pin": []}
+    for i, lay in enumerate(cfg.get("fasta") or []):
+        sub = Path(d) / ("fasta%d" % i)
+        sub.mkdir()
+        os.chdir(sub)
+        try:
+            files, _ = _multi_fasta(lay["data_seed"], lay["names"], decoys=lay["decoys"])
+            if not lay["decoys"]:
+                import numpy as np
+                np.random.seed(lay["data_seed"])
+            out["fasta"].append(proteins_canon(mokapot.read_fasta(write_fastas(files, sub), missed_cleavages=0,
+                                                                  min_length=6)))
+        except Exception:
+            out["fasta"].append({"error": traceback.format_exc()[-400:]})
+    for i, var in enumerate(cfg.get("pin") or []):
+        sub = Path(d) / ("pin%d" % i)
+        sub.mkdir()
+        os.chdir(sub)
+        try:
+            out["pin"].append({"features": [str(f) for f in read_table(var, sub)[1].feature_columns]})
+        except Exception:
+            out["pin"].append({"error": traceback.format_exc()[-400:]})
+    os.chdir(d)
+    return out
+
+
+def _cross_file_groups(lay, groups):
+    """how many of the protein groups reported by a session have members that come from different FASTA files"""
+    _, where = _multi_fasta(lay["data_seed"], lay["names"], decoys=lay["decoys"])
+    pre = "decoy_"
+    n = 0
+    for g in groups:
+        src = {where.get(m[len(pre):] if m.startswith(pre) else m) for m in g.split(", ")}
+        n += len(src - {None}) >= 2
+    return n
+
+
+def reader_compare(kind, item, h0, r0, h1, r1):
+    """violations [(case, what)] of one reader-level input between the sessions h0 and h1 (h1 None: r0 alone)"""
+    out = []
+    name = "read-fasta-multi-file" if kind == "fasta" else "read-pin-missing-values"
+    for h, r in ((h0, r0),) + (((h1, r1),) if h1 is not None and h1 != h0 else ()):
+        if "error" in r:
+            out.append(("reader-fails:" + name, "PYTHONHASHSEED=%s: %s" % (h, r["error"][-250:])))
+    if kind == "pin" and "features" in r0 and r0["features"] != complete_features(item):
+        out.append((name + ":not-the-complete-features-in-file-order",
+                    "PYTHONHASHSEED=%s: read_pin keeps the features %s; the feature columns without missing values "
+                    "are %s" % (h0, r0["features"], complete_features(item))))
+    if h1 is None or "error" in r0 or "error" in r1:
+        return out
+    if kind == "pin":
+        if r0["features"] != r1["features"]:
+            out.append(("hashseed-%s:feature-columns" % name, "PYTHONHASHSEED=%s vs %s: feature_columns %s vs %s"
+                        % (h0, h1, r0["features"], r1["features"])))
+    else:
+        diffs = [q for q in FASTA_PARTS if r0[q] != r1[q]]
+        if diffs:
+            only0 = [g for g in r0["groups"] if g not in r1["groups"]][:2]
+            only1 = [g for g in r1["groups"] if g not in r0["groups"]][:2]
+            out.append(("hashseed-%s:%s" % (name, diffs[0].replace("_", "-")),
+                        "PYTHONHASHSEED=%s vs %s: %s of read_fasta(%s) differ; groups only in the first %s, only in "
+                        "the second %s" % (h0, h1, diffs, item["names"], only0, only1)))
+    return out
+
+
+FASTA_NAME_SETS = [["db.fasta", "contaminants.fasta"], ["uniprot_sprot.fasta", "crap.fasta", "spikein.fasta"],
+                   ["a.fa", "b.fa", "c.fa", "d.fa"], ["human.fasta", "yeast.fasta", "irt.fasta"],
+                   ["target_decoy.fasta", "mq_contaminants.fasta"], ["1.fasta", "2.fasta", "3.fasta", "4.fasta", "5.fasta"]]
+
+
+def input_plan(tier, seed):
+    """(reader-level inputs, whole-analysis configurations, the hash seeds of the interpreters that run them all)"""
+    quick = tier == "quick"
+    lays = []
+    for li, names in enumerate(FASTA_NAME_SETS if not quick else FASTA_NAME_SETS[:4]):
+        for dcy in (True, False) if (not quick or li < 2) else (True,):
+            lays.append({"names": names, "data_seed": 10 * seed + li, "decoys": dcy})
+    pins = []
+    gaps = [[3], [2, 5], [4, 2]] if quick else [[3], [2, 5], [4, 2], [5], [2, 3, 4]]
+    for fmt in ("text", "parquet"):
+        for ci, chunk in enumerate((2, 3, 19) if quick else (2, 3, 4, 5, 19)):
+            for gi, gap in enumerate(gaps):
+                var = {"fmt": fmt, "data_seed": 10 * seed + gi, "n_spec": 60, "n_feat": 6, "nan_cols": gap,
+                       "col_chunk": chunk}
+                if (ci + gi) % 2:
+                    var["feat_names"] = "sequest"
+                if (ci + gi) % 3 == 2:
+                    var["row_chunk"], var["nan_tail"] = 50, True
+                pins.append(var)
+    hs = [0, 1, 12345] if quick else [0, 1, 2, 3, 12345, 987654]
+    seeds = [seed] if quick else [seed, seed + 1]
+    cfgs = []
+    for s in seeds:
+        cfgs.append(base_cfg(s, proteins="with_decoys", fasta_names=FASTA_NAME_SETS[1]))
+        cfgs.append(base_cfg(s, fmt="text", n_feat=6, nan_cols=[3], col_chunk=19))
+        if not quick:
+            cfgs.append(base_cfg(s, fmt="parquet", n_feat=6, nan_cols=[2, 5], col_chunk=2, feat_names="sequest"))
+            cfgs.append(base_cfg(s, proteins="target_only", global_seed=s, fasta_names=FASTA_NAME_SETS[0]))
+            cfgs.append(base_cfg(s, proteins="with_decoys", fasta_names=FASTA_NAME_SETS[2], workers=2))
+            cfgs.append(base_cfg(s, fmt="parquet", n_feat=6, nan_cols=[4], col_chunk=3, workers=2))
+            cfgs.append(base_cfg(s, fmt="text", n_feat=6, nan_cols=[5, 3], col_chunk=4, feat_names="sequest",
+                                 row_chunk=100))
+    return {"kind": "readers", "fasta": lays, "pin": pins}, cfgs, hs
+
+
+class _Part:
+    """the result of ONE whole analysis out of the batch a reader-level worker ran after its reader-level inputs"""
+
+    def __init__(self, future, index):
+        self.future, self.index = future, index
+
+    def result(self):
+        r = self.future.result()
+        return r["analyses"][self.index] if "analyses" in r else r
+
+
+def launch_inputs(tier, seed):
+    """one fresh interpreter per hash seed runs all the reader-level inputs and then the whole analyses (starting an
+    interpreter and importing mokapot costs more than these small inputs do)"""
+    rcfg, cfgs, hs = input_plan(tier, seed)
+    pend_r = launch([dict(rcfg, analyses=cfgs)], hs)
+    return pend_r, [(ci, h, _Part(f, ci)) for ci in range(len(cfgs)) for _, h, f in pend_r]
+
+
+def check_input_sessions(tier, seed, pending=None):
+    rcfg, cfgs, hs = input_plan(tier, seed)
+    pend_r, pend_a = pending or launch_inputs(tier, seed)
+    fa = [c for c in cfgs if c.get("fasta_names")]
+    n_files = sorted({len(l["names"]) for l in rcfg["fasta"]})
+    n_gaps = sorted({len(v["nan_cols"]) for v in rcfg["pin"]})
+    ck = Check("fresh_interpreters_inputs",
+               "mokapot.read_fasta([several files]) / mokapot.read_pin(table with missing feature values), alone and "
+               "followed by brew + assign_confidence, in `python -m harness.c08 --worker` (one interpreter per hash "
+               "seed runs all of these inputs one after the other)",
+               "PYTHONHASHSEED in %s.  Reader level: %d multi-file FASTA layouts (%s files under %d sets of file names; "
+               "14 target proteins in the first file, in every further file two proteins indistinguishable from "
+               "proteins of the first file and an equal-sized subset protein, in the last file one accession listed "
+               "again with a shorter sequence; with decoys or target-only after np.random.seed) and %d tables (120 PSMs, 6 "
+               "feature columns of which %s noise features have missing values in about 4 %% of the rows; text / Parquet; "
+               "column slices of %s columns; some read in 50-row chunks with the missing values only in the last "
+               "rows; two sets of feature names).  Whole analysis: %d configurations with %s FASTA files (the same "
+               "kind of layout, with decoys%s) and %d with %s feature(s) with missing values (6 features, text%s, "
+               "column slices of %s), 300 PSMs"
+               % (hs, len(rcfg["fasta"]), n_files, len({tuple(l["names"]) for l in rcfg["fasta"]}), len(rcfg["pin"]),
+                  n_gaps, sorted({v["col_chunk"] for v in rcfg["pin"]}), len(fa),
+                  sorted({len(c["fasta_names"]) for c in fa}), "" if tier == "quick" else " or target-only",
+                  len(cfgs) - len(fa), sorted({len(c["nan_cols"]) for c in cfgs if c.get("nan_cols")}),
+                  "" if tier == "quick" else " / Parquet",
+                  sorted({c["col_chunk"] for c in cfgs if c.get("nan_cols")})),
+               "reader level: sha256 of the sorted items of peptide_map / protein_map / shared_peptides (group names "
+               "verbatim) and the list feature_columns compared between sessions; feature_columns also compared with "
+               "the feature columns of the written table that have no missing value, in file order (what read_pin "
+               "documents).  Whole analysis: as fresh_interpreters, plus feature_columns.  Non-trivial = at least two "
+               "sessions ran and (FASTA) at least two protein groups have members from different files / (table) a "
+               "feature column has missing values and the column slices hold two or more columns / (analysis) models "
+               "trained and the learned score used")
+    rs = [(h, f.result()) for _, h, f in pend_r]
+    bad = [(h, r) for h, r in rs if "error" in r]
+    ok = [(h, r) for h, r in rs if "error" not in r]
+    for h, r in bad:
+        ck.violation("reader-worker-fails", "fresh interpreter (PYTHONHASHSEED=%s) failed: %s" % (h, r["error"][-300:]),
+                     {"cfg": {"kind": "readers", "fasta": rcfg["fasta"][:1], "pin": rcfg["pin"][:1]}, "hashseeds": [h]})
+    for h, r in ok:
+        if str(r["hashseed"]) != str(h):
+            ck.violation("harness-hashseed-not-set", "worker did not see its PYTHONHASHSEED",
+                         {"cfg": {"kind": "readers", "fasta": rcfg["fasta"][:1]}, "hashseeds": [h]})
+    told = set()            # one violation per class at the reader level: the list of a check holds five
+
+    def tell(case, what, inp):
+        if case not in told:
+            told.add(case)
+            ck.violation(case, what, inp)
+    for kind in ("fasta", "pin"):
+        for i, item in enumerate(rcfg[kind]):
+            got = [(h, r[kind][i]) for h, r in ok]
+            if kind == "fasta":
+                nontriv = len(got) >= 2 and "groups" in got[0][1] and _cross_file_groups(item, got[0][1]["groups"]) >= 2
+            else:
+                nontriv = len(got) >= 2 and item["col_chunk"] >= 2 and bool(item["nan_cols"])
+            ck.case(("reader", kind, sorted((k, str(v)) for k, v in item.items())), nontrivial=nontriv)
+            sub = {"cfg": {"kind": "readers", kind: [item]}}
+            ref = next(((h, r) for h, r in got if "error" not in r), None)      # the first session that read the input
+            for h, r in got:
+                for case, what in reader_compare(kind, item, h, r, None, None):    # this session alone
+                    tell(case, what, dict(sub, hashseeds=[h]))
+                if "error" not in r and (h, r) != ref:
+                    for case, what in reader_compare(kind, item, ref[0], ref[1], h, r):
+                        if case.startswith("hashseed-"):
+                            tell(case, what, dict(sub, hashseeds=[ref[0], h]))
+    # whole analyses: the comparison of fresh_interpreters, then the feature lists (also of sessions that failed later on)
+    _sessions(ck, cfgs, hs, "input-session", pend_a)
+    for ci, cfg in enumerate(cfgs):
+        if not cfg.get("nan_cols"):
+            continue
+        feats = [(h, f.result().get("features")) for cj, h, f in pend_a if cj == ci]
+        feats = [(h, f) for h, f in feats if f is not None]
+        for h, f in feats:
+            if f != complete_features(cfg):
+                ck.violation("missing-values:not-the-complete-features-in-file-order",
+                             "PYTHONHASHSEED=%s: the analysis uses the features %s; the feature columns without "
+                             "missing values are %s" % (h, f, complete_features(cfg)), {"cfg": cfg, "hashseeds": [h]})
+        for h, f in feats[1:]:
+            if f != feats[0][1]:
+                ck.violation("hashseed-missing-values:feature-columns",
+                             "PYTHONHASHSEED=%s vs %s: feature_columns %s vs %s" % (feats[0][0], h, feats[0][1], f),
+                             {"cfg": cfg, "hashseeds": [feats[0][0], h]})
+    return ck
+
+
 # ----------------------------------------------------------------------------------------------- (c) model order
 def check_model_order(tier, seed):
     import numpy as np
@@ -383,6 +747,15 @@ def REPLAY(check_name, violation):
     if isinstance(inp, str):
         inp = json.loads(inp)
     cfg = inp["cfg"]
+    if cfg.get("kind") == "readers":
+        kind = "fasta" if cfg.get("fasta") else "pin"
+        hs = inp["hashseeds"]
+        rs = [run_worker(cfg, h) for h in hs]
+        if any("error" in r for r in rs):
+            return {"violated": True, "detail": [r.get("error") for r in rs]}
+        found = reader_compare(kind, cfg[kind][0], hs[0], rs[0][kind][0], *((hs[1], rs[1][kind][0]) if len(hs) > 1
+                                                                              else (None, None)))
+        return {"violated": bool(found), "detail": found}
     with scratch("c08p_") as d:
         if "perm" in inp:
             first = analysis(cfg, d / "first", keep_raw=True)
@@ -395,7 +768,11 @@ def REPLAY(check_name, violation):
             r0, r1 = run_worker(cfg, hs[0]), run_worker(cfg, hs[1])
             if "error" in r0 or "error" in r1:
                 return {"violated": True, "detail": [r0.get("error"), r1.get("error")]}
-            return {"violated": bool(_diff(r0, r1)), "detail": _diff(r0, r1)}
+            extra = []
+            if cfg.get("nan_cols"):
+                extra = ["features"] * (r0["features"] != r1["features"]) + \
+                    ["features-not-the-complete-ones"] * (r0["features"] != complete_features(cfg))
+            return {"violated": bool(_diff(r0, r1) or extra), "detail": extra + _diff(r0, r1)}
         r0 = analysis(cfg, d / "a")
         r1 = analysis(dict(cfg, global_seed=inp.get("second_global_seed", 202)), d / "b")
         return {"violated": bool(_diff(r0, r1)), "detail": _diff(r0, r1)}
@@ -408,11 +785,19 @@ if __name__ == "__main__":
     a = args()
     plan_b, plan_d = session_plan(a.tier, a.seed), protein_plan(a.tier, a.seed)
     pend_b, pend_d = launch(plan_b[0], plan_b[1]), launch(plan_d[0], plan_d[1])    # run while (a) and (c) compute
+    pend_e = launch_inputs(a.tier, a.seed)
     emit([check_same_process(a.tier, a.seed), check_model_order(a.tier, a.seed),
-          check_sessions(a.tier, a.seed, pend_b), check_protein_sessions(a.tier, a.seed, pend_d)],
+          check_sessions(a.tier, a.seed, pend_b), check_protein_sessions(a.tier, a.seed, pend_d),
+          check_input_sessions(a.tier, a.seed, pend_e)],
          ["bit-identity is observed on this machine / BLAS / thread configuration only; sklearn and numpy numerics are "
           "not varied",
           "PEPs with the default 'qvality' algorithm (hist_nnls cannot run with the installed SciPy)",
           "PercolatorModel(train_fdr=0.2), test_fdr = eval_fdr = 0.2 on 300 generated PSMs",
           "target-only FASTA: np.random.seed(seed) is called before the analysis, as mokapot's CLI does, because "
-          "match_decoy draws from the global RNG by design"])
+          "match_decoy draws from the global RNG by design",
+          "several FASTA files: the list is given in one fixed order and by the same (relative) file names in every "
+          "session; the iteration order of the maps of the Proteins object and the order of the groups inside a "
+          "shared_peptides entry are not compared (they reach no result file), the member order inside a group name is",
+          "missing values: only noise features get them (the two informative features stay), about 4 % of the rows; "
+          "that read_pin keeps exactly the complete feature columns in file order is taken from its documentation "
+          "(features with missing values are dropped), the statement itself only demands that all sessions agree"])
